@@ -182,7 +182,7 @@ def _run(job):
         return {**m, "fref": fref, "verdict": "refused", "rule": f"internal: {type(error).__name__}: {error}"[:100]}
 
 
-def sweep(pid: str, jobs: int = 16, limit: int | None = None, functions: list[str] | None = None) -> dict:
+def sweep(pid: str, jobs: int = 16, limit: int | None = None, functions: list[str] | None = None, sample: int | None = None, seed: int = 0) -> dict:
     from .__main__ import run_property
 
     repo = Repo()
@@ -201,6 +201,11 @@ def sweep(pid: str, jobs: int = 16, limit: int | None = None, functions: list[st
             work.append((pid, f.module, fref, m))
     if limit:
         work = work[:limit]
+    generated = len(work)
+    if sample and len(work) > sample:
+        import random
+
+        work = random.Random(seed).sample(work, sample)
     with ProcessPoolExecutor(max_workers=jobs) as ex:
         res = list(ex.map(_run, work, chunksize=8))
     for r in res:
@@ -218,7 +223,7 @@ def sweep(pid: str, jobs: int = 16, limit: int | None = None, functions: list[st
         k[1] += 1
         k[0] += r["verdict"] != "silent"
     return {
-        "property": pid, "functions": len(touched), "edits": len(res), "edits_in_code": len(code), "pinned": len(pinned),
+        "property": pid, "functions": len(touched), "edits_generated": generated, "edits": len(res), "edits_in_code": len(code), "pinned": len(pinned),
         "pinned_ratio": round(len(pinned) / max(1, len(code)), 3),
         "by_kind": {k: {"pinned": v[0], "of": v[1]} for k, v in sorted(by_kind.items())},
         "by_function": {k: {"pinned": v[0], "of": v[1]} for k, v in sorted(by_fn.items())},
